@@ -34,7 +34,7 @@ let validator = function
   | [a; p; q] -> { v_addr = n_of_string a; v_power = z_of_string p; v_prio = z_of_string q }
   | _ -> failwith "validator"
 
-(* set tokens: "nil" | n (a p q)*n  pa pp pq ; returns (set option, rest) *)
+(* set tokens: "nil" | n (a p q)*n  pa pp pq total ; returns (set option, rest) *)
 let parse_set (l : string list) : valset option * string list =
   match l with
   | "nil" :: rest -> (None, rest)
@@ -43,7 +43,9 @@ let parse_set (l : string list) : valset option * string list =
     let rec go i l acc = if i = 0 then (List.rev acc, l) else go (i-1) (drop 3 l) (validator (take 3 l) :: acc) in
     let (vals, rest) = go c rest [] in
     let prop = validator (take 3 rest) in
-    (Some { vs_vals = vals; vs_prop = prop }, drop 3 rest)
+    (match drop 3 rest with
+     | tot :: rest -> (Some { vs_vals = vals; vs_prop = prop; vs_total = z_of_string tot }, rest)
+     | [] -> failwith "set: total")
   | [] -> failwith "set"
 
 let bid h t p = { b_hash = n_of_string h; b_total = n_of_string t; b_phash = n_of_string p }
@@ -77,7 +79,7 @@ let parse_block = function
 let str_val v = Printf.sprintf "%s,%s,%s" (string_of_n v.v_addr) (string_of_z v.v_power) (string_of_z v.v_prio)
 let str_set = function
   | None -> "nil"
-  | Some vs -> String.concat ";" (List.map str_val vs.vs_vals) ^ "@" ^ str_val vs.vs_prop
+  | Some vs -> String.concat ";" (List.map str_val vs.vs_vals) ^ "@" ^ str_val vs.vs_prop ^ "#" ^ string_of_z vs.vs_total
 let str_bid b = Printf.sprintf "%s:%s:%s" (string_of_n b.b_hash) (string_of_n b.b_total) (string_of_n b.b_phash)
 let str_state s =
   Printf.sprintf "%s %s %s %s %s %s %s %s %s %s L=%s V=%s N=%s"
@@ -92,6 +94,7 @@ let str_lres = function
   | LOk s -> "ok " ^ str_state s
 
 let str_obs = function
+  | ObNode -> "e ok"
   | ObBoot r -> "boot " ^ str_lres r
   | ObOk -> "b ok"
   | ObState None -> "u none"
@@ -128,6 +131,7 @@ let () =
         (match rest with [k] -> declare vtab (kl_string kl) (n_of_string k) | _ -> failwith "VKEY key")
       | ["PKEY"; p; lhc; k] -> declare ptab (p ^ "/" ^ lhc) (n_of_string k)
       | "BOOT" :: rest -> exec (OBoot (parse_state rest))
+      | "E" :: rest -> exec (ONode (parse_state rest))
       | "B" :: rest ->
         (* the genesis block line is a declaration (no observable), every other one an op *)
         let (b, _) = parse_block rest in
